@@ -136,7 +136,7 @@ func (d *Data) Encode() ([]byte, error) {
 	if err := utils.Compress(buf, compressed); err != nil {
 		return nil, err
 	}
-	return compressed.Bytes(), nil
+	return bytes.Clone(compressed.Bytes()), nil
 }
 
 func (d *Data) Decode(data []byte) error {
